@@ -6,6 +6,10 @@
 (*   "rs"  chain head event: the state nonce / balance of one account and   *)
 (*         the block gas limit change arbitrarily, then the reset runs      *)
 (*   "ab"  AddRemotesSync([tx1, tx2]) (a batch, as the reactor submits)     *)
+(*   "bb"/"bl"  AddRemotesSync(ts) / AddLocals(ts) for a batch ts drawn     *)
+(*         from the fixed list Batches (3-4 elements: runs of pre-filtered  *)
+(*         elements -- pooled duplicates, bad signatures -- before and      *)
+(*         between new ones); the result is the per-slot outcome vector     *)
 (*   "mn"  head event whose block contains the first k transactions the     *)
 (*         pool offers for an account; "ro" that block is abandoned for an  *)
 (*         empty sibling (reorganisation: the pool reinjects them)          *)
@@ -31,6 +35,7 @@ EXTENDS TxPool, Json
 CONSTANTS
   MaxNonce, Prices, Kinds,   \* submissions: Accts x 0..MaxNonce x Prices x Kinds  (+ ExtraTx)
   ExtraTx,                   \* further individual transactions offered as submissions
+  Batches,                   \* the batch shapes of "bb"/"bl": a set of sequences of transactions
   ResetAccts, ResetNonces, Bals, GasLimits,  \* accounts a head event may touch, values it may install
   InitBal, InitGas,          \* chain at start (all nonces 0)
   Floors,                    \* arguments of SetGasPrice
@@ -83,6 +88,8 @@ Next ==
   /\ \/ "ar" \in Acts /\ Quiet /\ \E t \in TxU : Step(SyncAdd(s, t, FALSE), <<"ar">> \o t)
      \/ "al" \in Acts /\ Quiet /\ \E t \in TxU : Step(SyncAdd(s, t, TRUE), <<"al">> \o t)
      \/ "ab" \in Acts /\ Quiet /\ \E t1, t2 \in TxU : t1 # t2 /\ Step(SyncBatch(s, <<t1, t2>>), <<"ab", t1, t2>>)
+     \/ "bb" \in Acts /\ Quiet /\ \E ts \in Batches : Step(BatchAdd(s, ts, FALSE), <<"bb", ts>>)
+     \/ "bl" \in Acts /\ Quiet /\ \E ts \in Batches : Step(BatchAdd(s, ts, ~NoLocals), <<"bl", ts>>)
      \/ "xr" \in Acts /\ \E t \in TxU : PreCheck(s, t) = "ok" /\ Step(AddLocked(s, t, FALSE), <<"xr">> \o t)
      \/ "xl" \in Acts /\ \E t \in TxU : PreCheck(s, t) = "ok" /\ Step(AddLocked(s, t, TRUE), <<"xl">> \o t)
      \/ "pr" \in Acts /\ ~Quiet /\ Step(Promote(s), <<"pr">>)
@@ -121,7 +128,7 @@ StrictInv == /\ PendingGapFree(s)
 (* transition invariants (evaluated on every transition, whether or not the *)
 (* successor is new)                                                        *)
 Last == hist'[Len(hist')]
-ReorgOps == {"ar", "al", "ab", "pr", "rs", "mn", "ro", "rst"}
+ReorgOps == {"ar", "al", "ab", "bb", "bl", "pr", "rs", "mn", "ro", "rst"}
 StepInv ==
   \* no operation opens a hole in what an account is offered, or lets Nonce(a) drift from it -- except, AS
   \* IMPLEMENTED, a reorganisation (after which a wrong Nonce(a) can open the hole one submission later)
@@ -129,7 +136,8 @@ StepInv ==
   /\ Last[1] # "rst" => ReplacementNeedsBump(s, s', Last[Len(Last) - 2]) /\ LocalsExempt(s, s')
   \* the global queue limit right after every reorg (the pre-checks of "ar"/"al" return before one)
   /\ (Last[1] \in ReorgOps /\ ~(Last[1] \in {"ar", "al"} /\ Last[6] \in {"known", "sender", "blacklisted"})
-                           /\ ~(Last[1] = "ab" /\ \A i \in 1..2 : Last[4][i] \in {"known", "sender", "blacklisted"}))
+                           /\ ~(Last[1] = "ab" /\ \A i \in 1..2 : Last[4][i] \in {"known", "sender", "blacklisted"})
+                           /\ ~(Last[1] \in {"bb", "bl"} /\ \A i \in 1..Len(Last[3]) : Last[3][i] \in PreFiltered))
         => GlobalQueueRespected(s')
   \* the per-account queue limit: an accepted submission never makes the sender's queue exceed it, nor
   \* grow while above it (an excess can only be left over from a demotion, see FixCapAfterDemote)
@@ -145,6 +153,15 @@ StepInv ==
   /\ (Last[1] = "rst" /\ JournalOn)
         => \A t \in s.pend \cup s.queue : (\E i \in 1..Len(s.jr) : s.jr[i] = t)
               => AtN(s'.pend \cup s'.queue, TA(t), TN(t)) # {}
+  \* the outcome vector of a batch is per slot: a slot answered "ok" names a transaction that was new and is
+  \* pooled afterwards unless a later element or the promotion run displaced it; a pre-filtered slot names one
+  \* that was pooled before ("known") or can never be pooled
+  /\ Last[1] \in {"bb", "bl"} =>
+        \A i \in 1..Len(Last[2]) :
+           /\ Last[3][i] = "known" => (Last[2][i] \in All(s) \/ \E j \in 1..(i - 1) : Last[2][j] = Last[2][i])
+           /\ Last[3][i] = "ok" => Last[2][i] \notin All(s)
+           /\ Last[3][i] \in {"sender", "funds", "noncelow", "gaslimit", "intrinsic", "oversized", "blacklisted"}
+                 => Last[2][i] \notin All(s')
 StepProp == [][StepInv]_vars
 
 Dump == PrintT(ToJson([h |-> hist', o |-> alts']))
